@@ -1492,7 +1492,7 @@ package log
 //@   modifies atomPtr[c.file], atomPtr[c.oldFile], atomI64[c.currTime], fdOpen, fdFlags, fdPath, lastNow, spawned, interfered, nilStores[c.file], nilStores[c.oldFile], casWins[c.currTime]
 //@   ensures[C10:the-hooks-are-invoked-by-record-only] calls(TimeNow) == old(calls(TimeNow)) && calls(StringFromContext) == old(calls(StringFromContext)) && calls(FieldsFromContext) == old(calls(FieldsFromContext))
 //@   nopanic[C19]
-//@   ensures[C03,C13:the-current-file-cell-is-never-emptied] nilStores[c.file] == old(nilStores[c.file])
+//@   ensures[C03,C13,C19,C20:the-current-file-cell-is-never-emptied] nilStores[c.file] == old(nilStores[c.file])
 //@   ensures[C05,C13:only-the-winner-of-the-boundary-rotates] atomPtr[c.file] != f0 || atomPtr[c.oldFile] != o0 ==> casWins[c.currTime] > old(casWins[c.currTime])
 //@   ensures[C13:same-interval-nothing-changes] time_unix(time_trunc(lastNow, c.Rotation.Interval)) <= t0 ==> atomPtr[c.file] == f0 && atomPtr[c.oldFile] == o0 && atomI64[c.currTime] == t0 && spawned == old(spawned)
 //@   ensures[C13,C19:boundary-is-recorded-once] time_unix(time_trunc(lastNow, c.Rotation.Interval)) > t0 && !interfered ==> atomI64[c.currTime] == time_unix(time_trunc(lastNow, c.Rotation.Interval))
@@ -1507,7 +1507,7 @@ package log
 //@   modifies atomPtr[c.file], atomPtr[c.oldFile], atomI64[c.currTime], fdOpen, fdFlags, fdPath, lastNow, spawned, sink, interfered, nilStores[c.file], nilStores[c.oldFile], casWins[c.currTime]
 //@   ensures[C10:the-hooks-are-invoked-by-record-only] calls(TimeNow) == old(calls(TimeNow)) && calls(StringFromContext) == old(calls(StringFromContext)) && calls(FieldsFromContext) == old(calls(FieldsFromContext))
 //@   nopanic[C19]
-//@   ensures[C03,C13:the-current-file-cell-is-never-emptied] nilStores[c.file] == old(nilStores[c.file])
+//@   ensures[C03,C13,C19,C20:the-current-file-cell-is-never-emptied] nilStores[c.file] == old(nilStores[c.file])
 //@   ensures[C13,C20:one-write-to-the-current-file] atomPtr[c.file] != nil ==> sink == tsnoc(old(sink), 3, atomPtr[c.file], sref(b), len(b), content(b))
 //@   ensures[C19:no-file-no-write] atomPtr[c.file] == nil ==> sink == old(sink)
 
@@ -1516,6 +1516,7 @@ package log
 //@   maintains[C05,C19:current-and-old-file-differ] rfaDistinct(c)
 //@   modifies atomPtr[c.file], atomPtr[c.oldFile], atomI64[c.currTime], fdOpen, fdFlags, fdPath, lastNow, spawned, sink, lastBytes, interfered, nilStores[c.file], nilStores[c.oldFile], casWins[c.currTime]
 //@   ensures[C10:the-hooks-are-invoked-by-record-only] calls(TimeNow) == old(calls(TimeNow)) && calls(StringFromContext) == old(calls(StringFromContext)) && calls(FieldsFromContext) == old(calls(FieldsFromContext))
+//@   ensures[C03,C13,C19,C20:the-current-file-cell-is-never-emptied] nilStores[c.file] == old(nilStores[c.file])
 //@   ensures[C03,C13,C20:one-line] atomPtr[c.file] != nil ==> sink == tsnoc(old(sink), 3, atomPtr[c.file], sref(lastBytes), len(lastBytes), content(lastBytes))
 
 //@ func (*RollingFileAppender).Stop
